@@ -15,7 +15,7 @@
 //   threads     '|'-separated client threads, ops ','-separated ("-" = none):
 //     W1 WA       futex.wake_one() / futex.wake_all()
 //     K<i>.<j>    cancel the token of op j of coroutine i   (result '-' when the token is not published yet)
-//     V<x>        futex.value() = x
+//     V<x>        futex.atomic_value().store(x)
 //     S<k>        promise k .set_value(100 + k)
 //     Y           sched_yield
 //     Q<n>        wait until n cancellation tokens have been published (n waiters with 't' are queued)
@@ -33,6 +33,8 @@
 //   wall      after wake_all returns every waiter queued when it began is unlinked and taken
 //   leak      deposit-box slots in use (both boxes) at the end == at the start of the case
 //   stranded  every coroutine finished after the closer's wake_all rounds
+//   lostwake  when nothing is in flight and the last store to the futex word precedes the start of some wake_all(), no
+//             coroutine is suspended in a wait whose expected value differs from the word (compare + enqueue atomic)
 //   cbafter   await_suspend never fetches the on_suspend callback from an awaitable that the continuation has already
 //             destroyed (it must not touch the awaitable once add_awaiter published the node); only the variant
 //             driver built with -DC13_UNLOCK_POINT (lock_guard of futex.cpp yields after unlocking, freed memory is
@@ -100,7 +102,7 @@ struct COp { char k; int x = 0; bool tok = false; int e = -1; int fut = -1;
   int value = 0; bool has_value = false; bool bad = false;
   CoFutex::Cancellation ftok; BasicCancellable::Cancellation ctok; };
 struct Coro { int exec = 0; std::vector<COp> ops; size_t pos = 0; bool done = false; bool running = false; };
-struct TOp { char k; int a = 0, b = 0; std::string res; };
+struct TOp { char k; int a = 0, b = 0; std::string res; uint64_t bs = 0, es = 0; };   // bs/es: begin / end stamps
 
 using NodeBox = DepositBox<CoFutex::Node>;
 using CanBox = DepositBox<BasicCancellable*>;
@@ -113,7 +115,7 @@ struct World {
   std::vector<::babylon::Promise<int>*> promises; std::vector<Future<int>> futures;
   int queued = 0, busy = 0; size_t clients_done = 0; bool stop = false; uint64_t fn_seq = 0;
   // monitors
-  bool once = true, exec_ok = true, value_ok = true, nosusp = true, w1 = true, wall = true, cbafter = true;
+  bool once = true, exec_ok = true, value_ok = true, nosusp = true, w1 = true, wall = true, cbafter = true, lostwake = true;
   long wakes = 0, fcancels = 0, closer_wakes = 0; int tokens_published = 0;
   std::string detail;
   ptrdiff_t slot_delta = 0;
@@ -156,7 +158,7 @@ struct OnSuspend {
   uint64_t magic; World* w; int i; size_t j;
   void operator()(CoFutex::Cancellation t) const {
     if (magic != (C13_MAGIC ^ (uint64_t)(i * 131 + (int)j))) {
-      printf("%s ok steps=0 pre=0 | - / - | once=1 acct=1 exec=1 value=1 nosusp=1 w1=1 wall=1 leak=1 stranded=1 cbafter=0 slots=0 "
+      printf("%s ok steps=0 pre=0 | - / - | once=1 acct=1 exec=1 value=1 nosusp=1 w1=1 wall=1 leak=1 stranded=1 cbafter=0 lostwake=1 slots=0 "
              "detail=on_suspend-callback-read-from-destroyed-awaitable\n", g_case_id.c_str());
       fflush(stdout);
       _exit(0);
@@ -330,6 +332,7 @@ int main(int argc, char** argv) {
                 }
                 w->wakes += r; op.res = std::to_string(r);
               } else {
+                op.bs = verif::stamp();
                 auto before = w->linked();
                 int r = w->futex.wake_all();
                 auto after = w->linked();
@@ -347,7 +350,7 @@ int main(int argc, char** argv) {
               if (r) { if (++o->cancels_true > 1) { w->once = false; w->note("token-cancelled-twice"); } if (o->k == 'w') ++w->fcancels; }
               op.res = r ? "1" : "0";
             } break;
-            case 'V': w->futex.value() = (uint64_t)op.a; op.res = "v"; break;
+            case 'V': w->futex.atomic_value().store((uint64_t)op.a, std::memory_order_release); op.es = verif::stamp(); op.res = "v"; break;
             case 'S': w->promises[(size_t)op.a]->set_value(100 + op.a); op.res = "s"; break;
             case 'Y': sched_yield(); op.res = "y"; break;
             case 'Q': while (w->tokens_published < op.a) usleep(1); op.res = "q"; break;
@@ -362,6 +365,25 @@ int main(int argc, char** argv) {
       quiesce(w);
       for (size_t i = 0; i < w->coros.size(); ++i)
         progress += (i ? "," : "") + std::to_string(w->coros[i].pos) + (w->coros[i].done ? "d" : "s");
+      {
+        // lost wakeup: nothing is in flight, the word was last stored before some wake_all() began, and a coroutine is
+        // suspended in a wait whose expected value differs from the word.  Had it been queued before that wake_all's
+        // critical section it would have been taken; queued after it, it saw the new word and must not have suspended.
+        uint64_t last_store = 0, last_wa = 0;
+        for (auto& th : w->threads) for (auto& t : th) {
+          if (t.k == 'V') last_store = std::max(last_store, t.es);
+          if (t.k == 'W' && t.a == 1) last_wa = std::max(last_wa, t.bs);
+        }
+        uint64_t word = w->futex.value();
+        if (last_wa > last_store)
+          for (size_t i = 0; i < w->coros.size(); ++i) {
+            Coro& c = w->coros[i];
+            if (!c.done && c.pos < c.ops.size() && c.ops[c.pos].k == 'w' && (uint64_t)c.ops[c.pos].x != word) {
+              w->lostwake = false;
+              w->note("suspended-on-non-matching-word-after-wake_all c" + std::to_string(i) + "." + std::to_string(c.pos));
+            }
+          }
+      }
       size_t rounds = 2;
       for (auto& c : w->coros) rounds += c.ops.size();
       for (size_t r = 0; r < rounds; ++r) {
@@ -417,9 +439,9 @@ int main(int argc, char** argv) {
     }
     if (out.empty()) out = "-";
     for (auto& ch : w->detail) if (ch == ' ' || ch == '|') ch = '_';
-    if (!warming) printf("%s ok steps=%llu pre=%llu | %s / %s | once=%d acct=%d exec=%d value=%d nosusp=%d w1=%d wall=%d leak=%d stranded=%d cbafter=%d slots=%u detail=%s\n",
+    if (!warming) printf("%s ok steps=%llu pre=%llu | %s / %s | once=%d acct=%d exec=%d value=%d nosusp=%d w1=%d wall=%d leak=%d stranded=%d cbafter=%d lostwake=%d slots=%u detail=%s\n",
            id.c_str(), (unsigned long long)r.steps, (unsigned long long)r.preemptions, out.c_str(), progress.empty() ? "-" : progress.c_str(),
-           w->once, acct, w->exec_ok, w->value_ok, w->nosusp, w->w1, w->wall, leak_ok, stranded_ok, w->cbafter, slots_end,
+           w->once, acct, w->exec_ok, w->value_ok, w->nosusp, w->w1, w->wall, leak_ok, stranded_ok, w->cbafter, w->lostwake, slots_end,
            w->detail.empty() ? "-" : w->detail.c_str());
     fflush(stdout);
     // the world is leaked on purpose when something is stranded (frames still reference it)
